@@ -124,5 +124,18 @@ def run(ctx):
 
     ctx.guard("R03.6", "normal-forms", nf)
     ctx.guard("R03.6", "nf-simd", lambda: nf_common.nf_rule(ctx, "R03.6", "html_tokenizer_simd", floor=3))
-    ctx.guard("R03.6", "raw-path-gate", lambda: ctx.floor("R03.6", "raw-path-sites", tr.raw_path_gate(ctx, "R03.6", "html"), 1))
+    ctx.guard("R03.3", "raw-path-gate", lambda: ctx.floor("R03.3", "raw-path-sites", tr.raw_path_gate(ctx, "R03.3", "html"), 1))
+    from .C09 import r09_6
+    ctx.rule("R03.8", "the SIMD scan's newline tally covers exactly the bytes consumed (shared with R09.6): line numbers do not depend on chunk alignment")
+    def simd():
+        import rules.C09 as c9
+        # same analysis, reported under this property's rule id
+        obs_before = len(ctx.obs)
+        c9.r09_6(ctx)
+        for o in ctx.obs[obs_before:]:
+            if o["rule"] == "R09.6":
+                o["rule"] = "R03.8"
+        for k in [k for k in ctx.floors if k.startswith("R09.6.")]:
+            ctx.floors["R03.8." + k[len("R09.6."):]] = ctx.floors.pop(k)
+    ctx.guard("R03.8", "simd", simd)
     ctx.analysed.update(states=73)
